@@ -81,6 +81,16 @@ func c06(r *Report) {
 	r.Gate(Gate{ID: "C06.parse.canonical-compact.segment-decodes", Fn: acs, Effect: SuccessReturn(), ForEach: true, Check: ErrCheck(Fn("std:encoding/base64", "Encoding", "DecodeString"))})
 	r.Gate(Gate{ID: "C06.parse.canonical-compact.segment-re-encodes-to-itself", Fn: acs, Effect: SuccessReturn(), ForEach: true,
 		Check: CmpCheck("EncodeToString(decoded) == segment", token.EQL, CallV(Fn("std:encoding/base64", "Encoding", "EncodeToString"), -1), AnyV(), true)})
+	// ... and the protected header is exactly one JSON object: the JWS library ignores bytes around it, both when parsing and
+	// when it rebuilds the signing input, so without this anyone derives new transactions (new refs) from a signed one
+	notFirst := CmpCheck("i == 0 is false (not the header segment)", token.EQL, AnyV(), IntV(0), false)
+	r.Gate(Gate{ID: "C06.parse.canonical-compact.header-is-one-json-object.valid", Fn: acs, Effect: SuccessReturn(), ForEach: true,
+		Check: CallCheck(Fn("std:encoding/json", "", "Valid"), 0, IsTrue), Skip: []Check{notFirst}})
+	r.Gate(Gate{ID: "C06.parse.canonical-compact.header-is-one-json-object.starts-with-brace", Fn: acs, Effect: SuccessReturn(), ForEach: true,
+		Check: CmpCheck("decoded[0] == '{'", token.EQL, AnyV(), IntV('{'), true), Skip: []Check{notFirst}})
+	r.Gate(Gate{ID: "C06.parse.canonical-compact.header-is-one-json-object.ends-with-brace", Fn: acs, Effect: SuccessReturn(), ForEach: true,
+		Check: CmpCheck("decoded[len-1] == '}'", token.EQL, AnyV(), IntV('}'), true), Skip: []Check{notFirst}})
+	r.ArgIs("C06.parse.canonical-compact.header-is-one-json-object.of-the-decoded-segment", acs, Fn("std:encoding/json", "", "Valid"), 0, CallV(Fn("std:encoding/base64", "Encoding", "DecodeString"), 0), 1)
 	// the Lamport clock header is an unsigned 32 bit integer (a fractional, negative or oversized number converts to something else)
 	plc := p.Func(dag, "", "parseLamportClock")
 	lcStore := InstrEffect("transaction.lamportClock = uint32(lc)", func(in ssa.Instruction) bool {
